@@ -228,7 +228,73 @@ func c16MergeSets() []gen.FileSet {
 	mk := func(tag string, a, b *ref.Model) gen.FileSet {
 		return gen.FileSet{Tag: tag, Files: []gen.FileSpec{{Name: "a.fga", M: a}, {Name: "b.fga", M: b}}}
 	}
-	return []gen.FileSet{
+	var sets []gen.FileSet
+	// systematic look-alikes: the conflicting name continued or preceded by every character an (extended) identifier may hold,
+	// declared on an earlier line of the same file - and, as a control, on a later one
+	ext := []string{"s", "2", "X", "_x", "-x", ".x", "/x", "-", "_"}
+	pre := []string{"x", "x_", "x-", "x.", "x/", "_"}
+	alike := func(n string, extended bool) []string {
+		var out []string
+		for _, e := range ext {
+			if extended || !strings.ContainsAny(e, "./") {
+				out = append(out, n+e)
+			}
+		}
+		for _, e := range pre {
+			if extended || !strings.ContainsAny(e, "./") {
+				out = append(out, e+n)
+			}
+		}
+		return append(out, strings.ToUpper(n[:1])+n[1:])
+	}
+	for _, before := range []bool{true, false} {
+		ord := func(look, real ref.TypeDef) []ref.TypeDef {
+			if before {
+				return []ref.TypeDef{look, real}
+			}
+			return []ref.TypeDef{real, look}
+		}
+		tg := "after"
+		if before {
+			tg = "before"
+		}
+		for _, l := range alike("user", true) {
+			sets = append(sets, mk("alike-dup-type:"+l+":"+tg,
+				&ref.Model{Module: "ma", Types: []ref.TypeDef{{Name: "user"}, {Name: "doc", Rels: []ref.Relation{r("viewer")}}}},
+				&ref.Model{Module: "mb", Types: ord(ref.TypeDef{Name: l}, ref.TypeDef{Name: "user"})}))
+			sets = append(sets, mk("alike-missing-target:"+l+":"+tg,
+				&ref.Model{Module: "ma", Types: []ref.TypeDef{{Name: l, Rels: []ref.Relation{r("viewer")}}}},
+				&ref.Model{Module: "mb", Types: ord(ref.TypeDef{Name: l, Extend: true, Rels: []ref.Relation{r("editor")}}, ref.TypeDef{Name: "user", Extend: true, Rels: []ref.Relation{r("editor")}})}))
+		}
+		for _, l := range alike("viewer", true) {
+			rels := []ref.Relation{r(l), r("viewer")}
+			if !before {
+				rels = []ref.Relation{r("viewer"), r(l)}
+			}
+			sets = append(sets, mk("alike-relation-clash:"+l+":"+tg,
+				&ref.Model{Module: "ma", Types: []ref.TypeDef{{Name: "user"}, {Name: "doc", Rels: []ref.Relation{r("viewer")}}}},
+				&ref.Model{Module: "mb", Types: []ref.TypeDef{{Name: "doc", Extend: true, Rels: rels}}}))
+		}
+		for _, l := range alike("cnd", false) {
+			cs := []ref.Condition{cond(l), cond("cnd")}
+			if !before {
+				cs = []ref.Condition{cond("cnd"), cond(l)}
+			}
+			sets = append(sets, mk("alike-dup-condition:"+l+":"+tg,
+				&ref.Model{Module: "ma", Types: []ref.TypeDef{{Name: "user"}}, Conds: []ref.Condition{cond("cnd")}},
+				&ref.Model{Module: "mb", Conds: cs}))
+		}
+	}
+	// the conflicting name in another role on an earlier line: a relation, a restriction, a condition named like the type
+	sets = append(sets, mk("alike-roles-dup-type",
+		&ref.Model{Module: "ma", Types: []ref.TypeDef{{Name: "user"}}},
+		&ref.Model{Module: "mb", Types: []ref.TypeDef{{Name: "doc", Rels: []ref.Relation{{Name: "user", Rw: ref.T(), Restr: []ref.Restriction{{Type: "doc", Relation: "user"}}}, {Name: "type", Rw: ref.C("user")}}}, {Name: "user"}},
+			Conds: nil}))
+	sets = append(sets, mk("alike-roles-relation-clash",
+		&ref.Model{Module: "ma", Types: []ref.TypeDef{{Name: "user"}, {Name: "viewer", Rels: []ref.Relation{r("viewer")}}}},
+		&ref.Model{Module: "mb", Types: []ref.TypeDef{{Name: "define", Rels: []ref.Relation{{Name: "x", Rw: ref.T(), Restr: []ref.Restriction{{Type: "viewer", Relation: "viewer"}}}}},
+			{Name: "viewer", Extend: true, Rels: []ref.Relation{{Name: "define", Rw: ref.T(), Restr: u}, r("viewer")}}}}))
+	return append(sets,
 		mk("dup-type-with-longer-named-type-before",
 			&ref.Model{Module: "ma", Types: []ref.TypeDef{{Name: "user"}, {Name: "doc", Rels: []ref.Relation{r("viewer")}}}},
 			&ref.Model{Module: "mb", Types: []ref.TypeDef{{Name: "users"}, {Name: "user-group"}, {Name: "user"}}}),
@@ -244,7 +310,7 @@ func c16MergeSets() []gen.FileSet {
 				{Name: "other", Rels: []ref.Relation{r("viewer"), r("viewers")}},
 				{Name: "folder", Extend: true, Rels: []ref.Relation{r("viewer")}},
 				{Name: "doc", Extend: true, Rels: []ref.Relation{r("viewer_2"), r("viewer")}}}}),
-	}
+	)
 }
 
 func c16Run(ctx *core.Ctx) {
@@ -376,7 +442,7 @@ func init() {
 		ID: "C16",
 		Rule: "(2b) every injection with a known position into a small tail that follows a size-sweep model (sizes 13, 65, 100; names of 1100 characters; line numbers of two to four digits); (bounds) every string of <= 3 lexemes (thorough: 4 over a reduced alphabet) over a 38-lexeme DSL alphabet appended to each of 10 valid document prefixes; every syntax error of a rejected string must lie inside the input; the same for every DSL text of the shared test-data corpus and all its single mutations (quick: every 12th document). " +
 			"(exact) every listener-level injection (duplicate relation/condition/parameter, extend in a model, type extended twice) at every site x renderings (uniform styles, single deviations for every 3rd / all) - the error must stand on the offending name given by the renderer's source map. " +
-			"(merge) every conflict-carrying file set of C07 plus 4 look-alike sets (longer-named declarations and same-named relations of other types placed before the conflict) x file orders x layout styles - File and Line must be those of a conflicting declaration. " +
+			"(merge) every conflict-carrying file set of C07 plus the look-alike sets (per conflict kind the conflicting name continued or preceded by every character an extended identifier may hold - s 2 X _ - . / - declared before and after the conflict; the name in other roles; same-named relations of other types placed before the conflict) x file orders x layout styles - File and Line must be those of a conflicting declaration. " +
 			"states = distinct error signatures, non-trivial = distinct injected texts",
 		Assume: []string{
 			"positions are read from the public Error() text of syntax errors and from the exported fields of merge errors",
